@@ -66,6 +66,10 @@ CLAIMED = {
             "Generated-input search: eight struct shapes (flat, 1- and 2-level embedded, embedded interface with pointer/nil, empty, all-optional) x random values x optional subsets; every entry count 0..257 and 65535/65536(/65537/70000) of synthetic structs; extension profiles on both base profiles. The serialised map must equal the hand-written union in declaration order with a correct header, populate must reproduce the value, match the plain marshaller for shapes without embedding, be byte-stable, and fail on a missing non-optional or duplicate key.",
             "Shapes stay inside the claims convention (see DESIGN.md S-notes: no embedded pointer-to-struct, no empty non-nil slices under omitempty).",
             "DESIGN.md §4 C15"),
+    "C16": ("rapid state machine over the global profile register (checkpoint hook gives every history the pristine register) against a model register; probe battery + deep fingerprints of every instance",
+            "Generated histories (1..30 steps) of Register(new / existing / unregistrable shape), NewClaims, CBOR/JSON decode repeated 32x, in-place mutation of one instance (setters, exported pointers and slices, returned components, container) and probes, with 0..8 extra profiles of three shapes (sharing eat-profile, sharing psa-profile, own JSON member). After every registration the full battery of lookups for 12 names must equal the model's expectation (so a failed registration changes nothing and a successful one changes only the new name); every instance must equal the first one obtained the same way, be a distinct object, and stay unchanged while other instances are mutated; repeated JSON dispatch must give one outcome.",
+            "Hook: VerifCheckpointProfiles (build tag verif) only snapshots/restores the register map; the register itself is exercised through the public API.",
+            "DESIGN.md §4 C16"),
     "C18": ("rapid sequences of read-side calls with a reflect-based deep fingerprint before/after every call + repeat-equality; input-buffer scribbling and cross-instance mutation for aliasing",
             "Generated histories: subjects of seven kinds (literal, setters, decoded from CBOR/JSON, extension instance, decoded and freshly signed Evidence; valid or deviating) x 1..30 random read-side calls; after each call the deep fingerprint of everything reachable (exported fields, pointers, slices, component container) must be unchanged and an immediate repeat must return the identical result; decoding from a private buffer that is then overwritten (0x00/0xff/noise) must change no getter, encoding or Verify outcome, the decoder must not write to its input, and a second instance decoded from the same bytes must be unaffected by writes into the first instance's returned slices.",
             "The COSE message inside an Evidence is unexported: only its behaviour (Verify outcomes, MarshalJSON) is required to be stable; a change confined to it is recorded as a class, not a violation.",
